@@ -6,6 +6,13 @@ modelled (`Model/Sql.lean`) and validated against SQLite on every generated tree
 SUPPORTING theorems (machine-checked, every recursion budget, no bound on depth) about the half of the
 property that lives in the tree building - "however the engine commuted operations, merged them into
 one SELECT or nested subqueries":
+  * `sql_history_tree_sem`: for EVERY construction history inside one SQL engine - leaves, any number of the
+    seven unary operations, chains, joins with automatic common columns and an optional predicate,
+    materializations, nested to any depth - the tree the factories build has, in the reference semantics,
+    exactly the rows (values, multiplicity, order) and columns of the direct evaluation of the operation
+    sequence (`SqlBuild.direct`: natural join on the shared key columns plus the predicate, concatenation
+    for chain), and lives in that engine; what remains between this and the property is the emitted
+    SELECT text and the database;
   * `sql_tree_building_preserves_rows`: applying any of the seven unary operations inside the SQL engine
     to a raw SQL tree (leaves, materializations, transfers, unary operations, chains, joins) yields a
     well-formed relation with exactly the rows (values, multiplicity, order) and columns of the
@@ -22,6 +29,7 @@ one SELECT or nested subqueries":
 -/
 import DafRel.Lemmas.ConformSound
 import DafRel.Props.C17
+import DafRel.Lemmas.SqlHistory
 
 namespace DafRel.Props.C02
 
@@ -70,5 +78,36 @@ theorem join_factory_is_the_join (σ : Leaves) (st : Store) (t rhs : Rel) (pred 
     Props.C17.sql_join_factory_sound σ st t rhs pred bt tr res hwt htt hrt hwr htr hrr heng h
   subst hT
   exact ⟨common, c1, c2, semT, colT⟩
+
+/-- **Every SQL construction history builds a tree with the rows of its direct evaluation.** -/
+theorem sql_history_tree_sem (σ : Leaves) (st : Store) (eng : Engine) (hk : eng.kind = .sql)
+    (b : SqlBuild) (r : Rel) (hok : b.ok σ) (h : b.tree st eng = .ok r) :
+    sem σ r = b.direct σ ∧ (∀ c, c ∈ r.columns ↔ c ∈ b.cols) ∧ r.WF ∧ r.engine = eng :=
+  let B := sql_build_invariant σ st eng hk b r hok h
+  ⟨B.sem_eq, B.cols, B.good.wf, B.engine⟩
+
+/-! ### Non-vacuity -/
+
+private def ta : Tag := ⟨"a", true⟩
+private def tb : Tag := ⟨"b", false⟩
+private def tc : Tag := ⟨"c", false⟩
+private def e0 : Engine := ⟨0, .sql⟩
+private def σ0 : Leaves := fun oid =>
+  if oid = 1 then [fun t => if t = ta then some 1 else if t = tb then some 5 else none]
+  else [fun t => if t = ta then some 1 else if t = tc then some 7 else none]
+/-- (sorted, sliced L) joined with M -/
+private def h0 : SqlBuild :=
+  .join (.op (.slice 0 (some 3)) (.op (.sort [⟨.ref tb, false⟩]) (.leaf 1 [ta, tb] "L" 0 none 0)))
+    (.leaf 2 [ta, tc] "M" 0 none 0) (.lit true)
+example : (h0.tree [] e0).toOption.map (fun r => (r.isSelect, r.columns)) =
+    some (true, [ta, tb, tc]) := by decide +kernel
+example : h0.ok σ0 := by
+  refine ⟨?_, ?_⟩ <;>
+    (refine ⟨?_, Nat.zero_le _, fun m hm => by cases hm⟩
+     intro r hr
+     simp [σ0] at hr
+     subst hr
+     intro t
+     by_cases h1 : t = ta <;> by_cases h2 : t = tb <;> by_cases h3 : t = tc <;> simp_all [ta, tb, tc])
 
 end DafRel.Props.C02
